@@ -1,6 +1,6 @@
 (* C05 — property theorems (statements only; proofs live in Proofs*.v). *)
 From Coq Require Import List ZArith QArith Bool Sorting.Permutation.
-Require Import QV.C05.Model QV.C05.Spec QV.C05.Param QV.C05.Proofs QV.C05.Proofs2 QV.C05.Proofs3 QV.C05.Proofs4 QV.C05.Proofs5 QV.C05.Ctors QV.C05.Proofs6 QV.C05.Proofs7 QV.C05.ProofsP QV.C05.Proofs8.
+Require Import QV.C05.Model QV.C05.Spec QV.C05.Param QV.C05.Proofs QV.C05.Proofs2 QV.C05.Proofs3 QV.C05.Proofs4 QV.C05.Proofs5 QV.C05.Ctors QV.C05.Proofs6 QV.C05.Proofs7 QV.C05.ProofsP QV.C05.Proofs8 QV.C05.Proofs9.
 Import ListNotations.
 Open Scope Z_scope.
 
@@ -196,3 +196,18 @@ Theorem C05_ctor_mapping_param : forall S i j ren mren pm r1 m1 pm1 x ps G, in_S
   = compile_q (QMap i ren mren pm (QMap j r1 m1 pm1 x)) ps S G.
 Proof. exact ctor_map_param. Qed.
 Print Assumptions C05_ctor_mapping_param.
+
+(* ---- with_parallel_atomic (AtomicMultiChannelPT is part of the model: Param.pamc) ---- *)
+(* on an unnamed AtomicMultiChannelPT receiver the new atoms are appended to its sub-templates (measurements kept): the
+   same windows, duration and (sorted) channel list as the explicit nesting, hence the SAME program for every
+   parameter assignment, S and G — when the receiver's sub-templates define pairwise different channels (anything
+   else is rejected by the constructor of AtomicMultiChannelPT).  A named or non-AtomicMultiChannelPT receiver IS the
+   explicit nesting. *)
+Theorem C05_ctor_parallel_atomic : forall i m subs new ps S G, NoDup (map fst (amc_chans (scope_of ps) subs)) ->
+  compile_q (QAtom i (MNode m (subs ++ new))) ps S G = compile_q (QAtom i (MNode [] (MNode m subs :: new))) ps S G.
+Proof. exact ctor_paratomic_param. Qed.
+Print Assumptions C05_ctor_parallel_atomic.
+Example C05_parallel_atomic_nonvacuous :
+  NoDup (map fst (amc_chans (scope_of []) [MLeaf [] (AConst (EAff 2 []) [(1%N, EAff 1 [])]);
+                                          MLeaf [] (AFun 2%N (EAff 2 []) 1%Q (EAff 0 []))])).
+Proof. vm_compute. constructor; [intros [H|[]]; discriminate|]. constructor; [intros []|constructor]. Qed.
